@@ -18,7 +18,10 @@ type entry struct {
 
 var table = map[string]entry{
 	"C02": {"exploration", checks.C02},
+	"C05": {"exploration", checks.C05},
+	"C12": {"exploration", checks.C12},
 	"C13": {"exploration", checks.C13},
+	"C14": {"exploration", checks.C14},
 }
 
 func main() {
